@@ -17,6 +17,7 @@ import (
 	"github.com/influxdata/kapacitor"
 	"github.com/influxdata/kapacitor/tick/ast"
 	"github.com/influxdata/kapacitor/tick/stateful"
+	"github.com/influxdata/kapacitor/timer"
 
 	"kapverif/rt"
 )
@@ -36,6 +37,9 @@ var tokens = []string{
 type tally struct{ n, tasks, errs, panics, hangs, ran int }
 
 func defineOne(env *rt.Env, id, src string, run bool, t *tally, bad *[]string) {
+	if hung.Load() {
+		return
+	}
 	t.n++
 	setCur(src)
 	type res struct {
@@ -74,6 +78,7 @@ func defineOne(env *rt.Env, id, src string, run bool, t *tally, bad *[]string) {
 		}
 	case <-time.After(20 * time.Second):
 		t.hangs++
+		hung.Store(true)
 		*bad = append(*bad, fmt.Sprintf("hang on %q", src))
 	}
 }
@@ -91,6 +96,10 @@ func runOne(env *rt.Env, task *kapacitor.Task, t *tally, bad *[]string) {
 			env.Write("db", "rp", rt.MustPoint("m", map[string]string{"g": "a"}, map[string]any{"x": int64(0), "f": 1.5, "s": "str", "b": true}, rt.DefaultTime.T(k)))
 		}
 		env.Write("db", "rp", rt.MustPoint("m", map[string]string{"g": "b"}, map[string]any{"x": 2.5, "f": int64(3), "s": true, "value": "v"}, rt.DefaultTime.T(3)))
+		// points without any tag, twice in a row
+		for k := 4; k <= 5; k++ {
+			env.Write("db", "rp", rt.MustPoint("m", nil, map[string]any{"x": int64(k), "f": 0.5}, rt.DefaultTime.T(k)))
+		}
 		env.WaitIngress() // WritePoints only enqueues: the point is on the task's source edge once the ingest has forked it
 		env.TM.StopTask(task.ID)
 		if strictRun {
@@ -119,6 +128,9 @@ func runOne(env *rt.Env, task *kapacitor.Task, t *tally, bad *[]string) {
 var strictRun bool
 
 func lambdaOne(src string, t *tally, bad *[]string) {
+	if hung.Load() {
+		return
+	}
 	t.n++
 	setCur(src)
 	defer func() {
@@ -203,6 +215,10 @@ func famFnCall(r *rt.Run, env *rt.Env, emit emitFn) {
 
 var lambdaTokens = []string{"\"x\"", "\"f\"", "1", "0", "1.0", "'s'", "1s", "/r/", "TRUE", "+", "-", "*", "/", "%", "==", "!=", "<", "=~", "AND", "OR", "!", "(", ")", ",",
 	"int(", "float(", "string(", "strSubstring(", "strIndex(", "count(", "sigma(", "if(", "abs(", "duration(", "pow(", "strLength(", "hour(", "isPresent(", "humanBytes("}
+
+type realTiming struct{}
+
+func (realTiming) NewTimer(v timer.Setter) timer.Timer { return timer.New(1.0, 10, v) }
 
 type emitFn func(kind string, length int, first string, t tally, bad []string)
 
@@ -321,12 +337,43 @@ func famMutants(r *rt.Run, env *rt.Env, emit emitFn) {
 	r.Extra["corpus_mutants"] = nMut
 }
 
+// famNodes: every data-path node kind in a plain, valid pipeline, run strictly: nothing but the points can make a node
+// fail, and the points (same point twice, other kinds, no tags at all) may cause errors for those points at most.
+var strictPipes = []string{
+	"|groupBy(*)", "|groupBy('g')", "|groupBy('g')\n|groupBy('g')", "|groupBy(*)\n|groupBy('g')\n|groupBy(*)", "|groupBy('nosuch')", "|groupBy('g').byMeasurement()",
+	"|where(lambda: \"x\" > 0)", "|eval(lambda: \"x\" * 2).as('y')", "|eval(lambda: \"x\" / 0).as('y')", "|default().field('z', 1).tag('t', 'v')", "|delete().field('x').tag('g')",
+	"|derivative('x')", "|derivative('f').nonNegative().unit(1s)", "|changeDetect('x')", "|stateCount(lambda: \"x\" > 0)", "|stateDuration(lambda: \"x\" > 0)",
+	"|shift(5s)", "|sample(2)", "|sample(2s)", "|window().period(2s).every(1s)\n|count('x')", "|window().periodCount(2).everyCount(1)\n|mean('x')",
+	"|window().period(2s).every(2s)\n|max('x')\n|eval(lambda: \"max\" + 1).as('m')", "|groupBy('g')\n|window().period(2s).every(1s).align()\n|sum('f')", "|cumulativeSum('x')", "|difference('x')",
+	"|elapsed('x', 1s)", "|movingAverage('x', 2)", "|flatten().on('g')", "|groupBy('g')\n|combine(lambda: \"g\" == 'a', lambda: \"g\" == 'b').as('a', 'b').tolerance(1s)",
+	"|barrier().idle(1s)", "|barrier().period(1s)", "|stats(1h)", "|window().period(1s).every(1s)\n|top(1, 'x')", "|window().period(1s).every(1s)\n|percentile('x', 50.0)",
+	"|window().period(1s).every(1s)\n|distinct('x')", "|window().period(1s).every(1s)\n|spread('x')", "|window().period(1s).every(1s)\n|stddev('x')", "|window().period(1s).every(1s)\n|first('x')\n|last('first')",
+}
+
+func famNodes(r *rt.Run, env *rt.Env, emit emitFn) {
+	strictRun = true
+	defer func() { strictRun = false }()
+	n := 0
+	for _, from := range []string{"stream\n|from()", "stream\n|from().groupBy('g')", "stream\n|from().groupBy(*)", "stream\n|from().measurement('m').groupBy('g').where(lambda: \"x\" >= 0)"} {
+		var t tally
+		var bad []string
+		for _, p := range strictPipes {
+			n++
+			defineOne(env, fmt.Sprintf("np%d", n), from+"\n"+p+"\n|log()\n", true, &t, &bad)
+			// and two of them chained
+			n++
+			defineOne(env, fmt.Sprintf("np%d", n), from+"\n"+p+"\n"+strictPipes[(n*7)%len(strictPipes)]+"\n|log()\n", true, &t, &bad)
+		}
+		emit("nodes", len(strictPipes), strings.ReplaceAll(from, "\n", ""), t, bad)
+	}
+}
+
 var families = []struct {
 	name string
 	fn   func(r *rt.Run, env *rt.Env, emit emitFn)
 }{
 	{"tick", famTick}, {"lambda", famLambda}, {"unicode", famUnicode}, {"bytes", famBytes}, {"bytesctx", famBytesCtx},
-	{"mutants", famMutants}, {"vars", famVars}, {"pjson", famPJSON}, {"write", famWrite}, {"fncall", famFnCall},
+	{"mutants", famMutants}, {"vars", famVars}, {"pjson", famPJSON}, {"write", famWrite}, {"fncall", famFnCall}, {"runes", famRunes}, {"nodes", famNodes},
 }
 
 // ---- the input being processed, visible to the parent after a process-fatal outcome ----
@@ -385,6 +432,9 @@ func RunDefineFamily(r *rt.Run) error {
 		return err
 	}
 	defer env.Close()
+	// the daemon installs a sampling timer for every node (server.go); NewTaskMaster's default is a no-op.  With a
+	// sample rate of 1 every node call is timed, so a Start without its Stop shows at the next message.
+	env.TM.TimingService = realTiming{}
 	tr := r.NewTrace("define")
 	g0 := runtime.NumGoroutine()
 	emit := func(kind string, length int, first string, t tally, bad []string) {
@@ -411,6 +461,11 @@ func RunDefineFamily(r *rt.Run) error {
 	}
 	if !found {
 		rt.Fatalf("c05definefam: unknown family %q", r.Args[0])
+	}
+	if hung.Load() {
+		// a parse never came back: its goroutine is still running; report what there is and end the process
+		r.Finish("one family of definitions (ended early: a definition hung)", true)
+		os.Exit(0)
 	}
 	// goroutine growth over the whole run (definitions must not leak goroutines)
 	deadline := time.Now().Add(10 * time.Second)
